@@ -152,7 +152,19 @@ META = {
         "MIR_malloc modelled as typed 8-byte cells with room for 6 operands (exact sizes only in the native ASan replay)",
         "insn_nops filled (with the loop of check_and_prepare_insn_descs) only for the opcodes an obligation looks up",
         "string operands built directly (MIR_new_str_op interns into the string table, which is not part of the constructed state)",
-        "the oracle follows the implementation where MIR.md is silent/ambiguous: see DOC-AMBIGUITY comments in ref/mir_modes_ref.h",
+        "the oracle follows the implementation where MIR.md is silent/ambiguous (DOC-AMBIGUITY comments in ref/mir_modes_ref.h): addr8/16/32 "
+        "accept a register of any type; prset's 1st operand is unconstrained; the property constant must be a SIGNED immediate; va_arg's "
+        "memory operand is not checked beyond being memory; va_arg/va_block_arg/va_end are accepted in non-vararg functions; unnamed "
+        "arguments of a vararg call may be any operand (even a label); label and invalid-insn created through MIR_new_insn_arr with zero "
+        "operands are accepted; register names of the form t<number> (forbidden by MIR.md) are accepted by MIR_new_func_reg; "
+        "a wrong number of ret operands / jret in a function with results / va_start outside a vararg function are reported with "
+        "MIR_vararg_func_error (any code is accepted for these)",
+        "the per-opcode obligations EXCLUDE (assume away) exactly the instruction forms of the known findings - laddr with an immediate/ref/str "
+        "output; va_list operand given as undefined-type memory; call/inline/jcall whose callee is a prototype reference or block-type memory; "
+        "addr/addr8/addr16/addr32 whose 2nd operand is an immediate/label/ref/str; jcall instructions whose only defects are operand value "
+        "types/outputs, and jcall with 6 operands - each form is the sole content of an obligation 'finding.*' that is expected to be violated",
+        "a nondeterministic read caused by CBMC's handling of item->u.proto->field on small objects would over-approximate (spurious "
+        "counterexamples only); none was observed",
     ],
 }
 
